@@ -3,6 +3,7 @@ from .common import pyvc_units
 LEVEL = "other"
 MODULES = ["vf.contracts.c_components", "vf.contracts.c_rewrite", "vf.contracts.c_specshift", "vf.contracts.c_circuit_modes", "vf.contracts.c_matrix"]
 EXPLANATION = ('BOUNDED, exact arithmetic (xlift): 4 visible modes, programs over a 17-letter alphabet (swaps, phase shifters, adjacent and non-adjacent beam splitters in both conventions and mode orders, loss, barrier, unitary block, plain group, heralded group with a non-adjacent BS inside) - all pairs plus 400 (quick) / 3000 (thorough) swap-rich programs of length 3-5 - under each of unpack_groups, compress_mode_swaps, remove_non_adjacent_bs, copy, copy(freeze) and every ordered pair of the first three: U_full, heralds, input size unchanged (hence every heralded amplitude); no group remains / no non-adjacent BS remains at any depth / component count not grown; editing the rewritten circuit does not change the original. PROVED unbounded (pyvc): the permutation matrix of a swap dictionary (C01). PROVED for all mode values, shapes enumerated (pyvc, added later): combine_mode_swap_dicts is the composition of the two swaps with unchanged modes dropped (dictionaries of 0-3 entries each); convert_non_adj_beamsplitters replaces a beam splitter d = 2..5 modes apart (either order, either convention) by swap / adjacent beam splitter on the images, same settings / inverse swap, copies other components unchanged and rewrites inside a group; compress_mode_swaps merges a later swap exactly when the component in between (phase shifter, loss, beam splitter, group) touches none of its modes and otherwise returns the spec unchanged; unpack_circuit_spec on 8 spec shapes (groups nested up to three deep, empty group) returns the components in order in a new list with no group left. NOT under contract: Circuit._freeze_params, Circuit.copy (bounded only). ADDED LATER (bounded, native): unpack_circuit_spec on specs with groups nested 1-3 deep terminates, leaves no group and keeps the unitary.')
+EXPLANATION = EXPLANATION + " ADDED IN ROUNDS 5-8. PROVED (pyvc): Circuit.copy / __add__ / unpack_groups, the rewriting methods keep the user's Parameter objects, ModeSwaps.get_unitary and __post_init__, the Group element contracts of the spec-shifting functions (a group's declared range follows its components). BOUNDED: zero-valued loss elements, swaps on both sides of groups and of diagonal-phase unitary blocks."
 ASSUMPTIONS = ["A1: exact reals", "bounded: 4 visible modes, programs of <=5 components from a 17-letter alphabet, rewrite sequences of length <=2"]
 TRUSTED = ["xlift field + numpy proxy", "z3 5.1"]
 NSHARDS = 14
